@@ -6,6 +6,7 @@ import (
 	"io"
 	"os"
 	"sort"
+	"strconv"
 	"sync"
 	"unsafe"
 )
@@ -78,6 +79,14 @@ func Hostname() (string, error) {
 
 // ---- map iteration order ----
 
+// InitSeed seeds what happens outside any simulation (package initialisation): environment SIMRT_INIT_SEED.
+var InitSeed = func() uint64 {
+	v, _ := strconv.ParseUint(os.Getenv("SIMRT_INIT_SEED"), 10, 64)
+	return v
+}()
+
+var initDraws uint64
+
 // MapKeys returns the keys of m in an order drawn from the choice stream.
 func MapKeys[M ~map[K]V, K comparable, V any](site int, m M) []K {
 	keys := make([]K, 0, len(m))
@@ -94,6 +103,22 @@ func MapKeys[M ~map[K]V, K comparable, V any](site int, m M) []K {
 	}
 	sort.Slice(keys, func(i, j int) bool { return strs[keys[i]] < strs[keys[j]] })
 	if me() == nil {
+		// outside a simulation - package initialisation above all: the order comes from the process's init seed
+		// (InitSeed, set by the supervisor per worker process and recorded in replay files), so that code whose
+		// result depends on the iteration order of a map at init time differs between processes as it would for real
+		if InitSeed != 0 {
+			initDraws++
+			x := InitSeed*0x9E3779B97F4A7C15 + uint64(site)*0xBF58476D1CE4E5B9 + initDraws
+			for i := len(keys) - 1; i > 0; i-- {
+				x ^= x >> 30
+				x *= 0xBF58476D1CE4E5B9
+				x ^= x >> 27
+				x *= 0x94D049BB133111EB
+				x ^= x >> 31
+				j := int(x % uint64(i+1))
+				keys[i], keys[j] = keys[j], keys[i]
+			}
+		}
 		return keys
 	}
 	// Fisher-Yates driven by the choice stream
